@@ -393,6 +393,10 @@ def check(prop, tier):
     shutil.rmtree(rundir, ignore_errors=True)
     for l in lines:
         print(l)
+    for k in sorted(aux):
+        # oracles of OTHER properties (or the harness's own cross-checks) that fired
+        # during these runs: information, never this check's verdict
+        print("AUX-ALERT %s: %d run(s), e.g. seed %d: %s" % (k, aux[k]["count"], aux[k]["example_seed"], aux[k]["example_message"][:200]))
     n = len(runs)
     print("%s %s: %d runs, %d violations (%d known), %.0fs" % (prop, tier, n, len(viol_runs), len(viol_runs) - len(new_viol), time.time() - t0))
     sys.exit(exit_code)
